@@ -350,6 +350,9 @@ func (g *cgen) vec(t *Type, depth int) Expr {
 	return &Construct{T: t, Args: []Expr{g.expr(st, depth-1)}}
 }
 
+// ForceConstSite (development aid) pins the site.
+var ForceConstSite string
+
 // ConstSites lists the placements of a constant expression.
 var ConstSites = []string{"module-const", "module-const-inferred", "fn-const", "let", "var-init", "arg", "store", "array-size", "case-selector", "const-assert", "workgroup-size"}
 
@@ -357,6 +360,9 @@ var ConstSites = []string{"module-const", "module-const-inferred", "fn-const", "
 func GenConstCase(t *rapid.T, off func(string) bool) *ConstCase {
 	g := &cgen{t: t, off: off, classes: map[string]bool{}, concrete: true}
 	site := ConstSites[g.intn(len(ConstSites), "site")]
+	if ForceConstSite != "" {
+		site = ForceConstSite
+	}
 	if g.is("const.site." + site) {
 		site = "let"
 	}
@@ -419,6 +425,9 @@ func GenConstCase(t *rapid.T, off func(string) bool) *ConstCase {
 		case AbsFloat:
 			c.T = TF32
 		}
+	}
+	if _, bare := c.E.(*VarRef); bare && (site == "module-const" || site == "module-const-inferred") && g.is("const.alias") {
+		c.Site = "let"
 	}
 	c.Decls, c.Nodes = g.decls, g.nodes
 	if g.concrete {
